@@ -95,7 +95,7 @@ def check(rep, rng, thorough):
         # --- path
         nodes = [[0, 0, 0], [0.5, 0, 0], [0.5, 0.5, 0], None, [0, 0.5, 0.5], [0.3, 0.1, 0.7]]
         with quiet():
-            path = wb.Path(system, nodes=nodes, nk=[5, 4, 6])
+            path = wb.Path.from_nodes(system, nodes=nodes, nk=[5, 4, 6])
         kp = path.K_list
         def pcalcs():
             return {"tab": calc.TabulatorAll({"Energy": calc.tabulate.Energy(), "berry": calc.tabulate.BerryCurvature(kwargs_formula={"external_terms": False})}, ibands=[0, 1, 2], mode="path")}
